@@ -804,14 +804,15 @@ def selftest():
 
 
 SUBS = [
-    Sub("sliced", sliced_strategy, run_sliced, dict(quick=4800, thorough=60000),
-        budget_s=dict(quick=40, thorough=420), fixed_cases=sliced_fixed),
+    # quick: ~4 CPU-minutes in total (15-20 s wall on 16 idle cores); the budgets only cut in on a loaded machine
+    Sub("sliced", sliced_strategy, run_sliced, dict(quick=4000, thorough=50000),
+        budget_s=dict(quick=30, thorough=280), fixed_cases=sliced_fixed),
     Sub("complete", complete_strategy, run_complete, dict(quick=320, thorough=1500),
-        budget_s=dict(quick=30, thorough=240), fixed_cases=complete_fixed),
-    Sub("balanced", balanced_strategy, run_balanced, dict(quick=4000, thorough=60000),
-        budget_s=dict(quick=30, thorough=300), fixed_cases=balanced_fixed),
-    Sub("bintree", bintree_strategy, run_bintree, dict(quick=6400, thorough=100000),
-        budget_s=dict(quick=25, thorough=300), fixed_cases=bintree_fixed),
-    Sub("global", global_strategy, run_global, dict(quick=4000, thorough=40000),
-        budget_s=dict(quick=30, thorough=300), fixed_cases=global_fixed),
+        budget_s=dict(quick=10, thorough=60), fixed_cases=complete_fixed),
+    Sub("balanced", balanced_strategy, run_balanced, dict(quick=4000, thorough=40000),
+        budget_s=dict(quick=12, thorough=90), fixed_cases=balanced_fixed),
+    Sub("bintree", bintree_strategy, run_bintree, dict(quick=6400, thorough=60000),
+        budget_s=dict(quick=10, thorough=70), fixed_cases=bintree_fixed),
+    Sub("global", global_strategy, run_global, dict(quick=4000, thorough=30000),
+        budget_s=dict(quick=12, thorough=90), fixed_cases=global_fixed),
 ]
